@@ -3,7 +3,7 @@ CONSTANTS
   NP = 2
   NS = 2
   MaxLayers = 2
-  MaxSteps = 4
+  MaxSteps = 3
   InitLayer = TRUE
   RangeChoices <- MC_Ranges4a
   SkipChoices <- MC_Skips22a
